@@ -127,15 +127,24 @@ func (e *c05env) run(stream []byte, sr *scriptReader, tag string) (res []rdResul
 		}
 	}()
 	rd := &frame.Reader{ByteReader: sr, DialectRW: e.drw, InKey: e.key}
+	var own *bufio.Reader
 	if e.bufSize > 0 {
 		// the caller supplies its own (small) buffered reader through the public BufByteReader field
-		rd = &frame.Reader{BufByteReader: bufio.NewReaderSize(sr, e.bufSize), DialectRW: e.drw, InKey: e.key}
+		own = bufio.NewReaderSize(sr, e.bufSize)
+		rd = &frame.Reader{BufByteReader: own, DialectRW: e.drw, InKey: e.key}
 	}
 	if err := rd.Initialize(); err != nil {
 		e.rep.HarnessError("reader init: " + err.Error())
 		return nil, false
 	}
-	consumed := func() int { return sr.pos - rd.BufByteReader.Buffered() }
+	// (with a caller-supplied buffered reader the bytes are counted where the caller sees them: on its own reader, which
+	// it may go on using itself or hand to another consumer between two frames)
+	consumed := func() int {
+		if own != nil {
+			return sr.pos - own.Buffered()
+		}
+		return sr.pos - rd.BufByteReader.Buffered()
+	}
 	maxCalls := len(stream) + 1
 	if sr.errAt >= 0 {
 		maxCalls++ // one extra call reports the injected error
